@@ -23,7 +23,8 @@ _o = [
     obl('C13.dsd.model', _LD, [_B + 'dsdcyl_leaves', _B + 'dsdcyl_outcome', _B + 'dsdcyl_accepts', _B + 'dsdcyl_eq_spec',
                               _B + 'dsdcyl_eq_L8', _B + 'dsdcyl_eq_L9'], ['DSDCyl'], B.dsd),
     # Kenamond 1
-    obl('C13.k1.arrival', _K1, _both('k1d%d_at_detonator') + _both('k1d%d_ge'), ['K1d2', 'K1d3'], B.k1),
+    obl('C13.k1.arrival', _K1, _both('k1d%d_at_detonator') + _both('k1d%d_ge') + _both('k1d%d_eq_td_iff') + _both('k1d%d_gt')
+        + _both('k1d%d_causal'), ['K1d2', 'K1d3'], B.k1),
     obl('C13.k1.lipschitz', _K1, _both('k1d%d_lipschitz') + _both('k1d%d_continuous'), ['K1d2', 'K1d3'], B.k1),
     obl('C13.k1.eikonal', _K1, _both('k1d%d_eikonal_rays') + _both('k1d%d_gradient'), ['K1d2', 'K1d3'], B.k1),
     # Kenamond 2
@@ -57,7 +58,7 @@ PROP = dict(
     scope='Kenamond 1-3 (each traced in 2-D and in 3-D, constructor + _run on one symbolic point) and the DSD cylindrical '
           'expansion.  The traced burn time is proved equal to the documented formula over EuclideanSpace R (Fin n) '
           '(EPV.Lemmas.BurnK1/K2/K3/DSD, one module per solver), acceptance = the constructor\'s ordering conditions.  Proved for all admissible '
-          'parameters and all points: K1 t(x_d)=t_d, t>=t_d, |t p - t q| <= dist/D, eikonal equality along rays, gradient '
+          'parameters and all points: K1 t(x_d)=t_d, t>=t_d, t = t_d ONLY at the detonator (strictly later elsewhere), t p <= t q + dist/D, |t p - t q| <= dist/D, eikonal equality along rays, gradient '
           'norm 1/D from the generated certificates; K2 t >= min t_di, t(x_di) <= t_di, t(x_d3) = t_d3, global 1/D2 and '
           'inner 1/D1 Lipschitz bounds, ||p|| <= R -> t = t_d3 + ||p||/D1, continuity across the sphere; K3 t >= t_d, '
           't(x_d) = t_d, theta = 0 -> ||p - x_d|| = l_da + l_bp (both leaves agree), continuity on the explosive, shadow '
